@@ -110,7 +110,7 @@ func lookalikeNames() []string {
 			}
 		}
 	}
-	out = append(out, " oas_sp_gen.go", "oas_sp_gen.go ", "oasé_gen.go", "оas_cyr_gen.go", ".oas_hidden_gen.go", "oas_gen.go", "oasis_gen.go", "openapi_gen_test.go", "README.md", "doc.go", "Makefile")
+	out = append(out, " oas_sp_gen.go", "oas_sp_gen.go ", "oasé_gen.go", "оas_cyr_gen.go", ".oas_hidden_gen.go", ".ogen.yml", ".ogen.yaml", ".ogen.bak", "ogen.yaml.orig", ".gitignore", ".oas", "oas_gen.go", "oasis_gen.go", "openapi_gen_test.go", "README.md", "doc.go", "Makefile")
 	sort.Strings(out)
 	return out
 }
@@ -204,6 +204,8 @@ var States = []State{
 	{Name: "target-is-working-directory", Target: ".", Build: func(b *builder) {
 		b.gen(b.prevGen, 0o644)
 		b.write(b.abs("main.go"), user("main.go"), 0o644)
+		b.write(b.abs(".ogen.yml"), "{}\n", 0o644) // an auto-discovered config name; empty config = defaults
+		b.write(b.abs(".gitignore"), "*.dump\n", 0o644)
 		b.write(b.abs("oas_notes.txt"), "notes\n", 0o644)
 		b.write(b.abs("sub/oas_sub_gen.go"), user("sub"), 0o644)
 	}},
